@@ -66,3 +66,4 @@ package search
 //@   trusted pool internals (recycling of DocumentMatch objects) are outside the verified subset
 //@   requires p != nil
 //@   modifies *d, p.avail, p.avail[*]
+//@   ensures base(p.avail) == old(base(p.avail)) || fresh(p.avail)
